@@ -48,7 +48,12 @@ RULE = (
     "over the package's own LogNormal (mean/scale, mean/stdev), Normal (precision), InverseGamma, OneOnX and ten torch densities with every "
     "distribution parameter a leaf (x as one Parameter or a list), BayesianBridge (exponent and regularised forms), ScaleMixtureNormal, "
     "MultivariateNormal (scale_tril / covariance / precision, symmetric perturbations), DeterministicNormal; the soft-sorted skygrid "
-    "(temperature); exponential growth rates also drawn in 1e-6..1e-4 of either sign; "
+    "(temperature); exponential growth rates also drawn in 1e-6..1e-4 of either sign; mixed_shapes: the cases of coalescent / likelihood / gmrf / "
+    "skyline / priors / distributions / joint with groups of parameters (tree, demography, substitution, site, clock, skyline rates, field, "
+    "precision, x, distribution parameters) given a sample dimension [S, k], S in 1..3 (row 0 = the generated point, other rows jittered, "
+    "event-related ones by < delta/8), the other groups left unbatched - plans 'fixed tree' (everything but the tree batched), 'tree only', "
+    "random subsets - plus an enumeration of every coalescent class x tree parameterisation x {fixed tree, tree only}: the sum over the samples "
+    "is differentiated with respect to the unbatched leaves and every sample's slice of the batched ones; "
     "jacobian: TransformedParameter() over exp / sigmoid / affine / stick-breaking chains and ReparameterizedTimeTreeModel(); joint: "
     "JointDistributionModel over likelihood + coalescent + CTMC scale + torch priors + tree and transform Jacobians sharing parameters. "
     "Internal node heights, grid points and epoch boundaries are moved apart by construction to a drawn separation delta (1e-3..3e-2 of the "
@@ -89,7 +94,10 @@ ASSUMPTIONS = [
     "not generated",
     "the numerical derivative re-assigns .tensor with detached tensors and calls the model again: a cache that is not invalidated shows up as "
     "stale_value or as a mismatch and is reported (it makes the reported density differ from the one that is differentiated)",
-    "BDSK removal probability with more than one epoch (known C09 crash) and batched parameters (C10) are not generated",
+    "BDSK removal probability with more than one epoch (known C09 crash) is not generated",
+    "mixed_shapes: simplex-valued parameters, matrices, structural-zero vectors, grids and skyline rho / origin / times are never given a sample "
+    "dimension; a shape combination that raises is counted (label unsupported_shape) and not a violation - which combinations are supported and "
+    "that samples do not mix is C10's subject; C12 compares the gradient of the sum that is reported with its numerical derivative",
 ]
 
 EPS = 2.220446049250313e-16
@@ -205,6 +213,7 @@ def info(id_, owner, role, domain, lower=None, skip=None):
 def chain_for(domain, layers, flip, aff, values, lower=None):
     """list of (transform path, parameters) applied innermost first, mapping an unconstrained leaf onto `values`"""
     a, b = aff
+    values = np.asarray(values, dtype=float).reshape(-1).tolist()
     if layers == 0 or domain in ("heights", "fixed") or len(values) == 0:
         return []
     if domain == "pos":
@@ -356,6 +365,8 @@ class Engine:
 
     def run(self, ident):
         res, dic, ex = self.res, self.dic, self.ex
+        if self.tags.get("batched") is not None:
+            ident = (ident, "batched", self.tags["batched"], self.labels.get("S=1") and 1 or self.labels.get("S=2") and 2 or 3)
         leaves_all = leaf_parameters(dic)
         known = {i["leaf"] for i in self.infos}
         extra = sorted(k for k in leaves_all if k not in known)
@@ -464,7 +475,8 @@ class Engine:
                 if np.max(np.abs(w)) > 0:
                     out.append(("dense", w / np.max(np.abs(w)) * float(np.min(x))))
             return out
-        free = [j for j in range(k) if j not in skip]
+        last = int(inf.get("last_dim") or k)
+        free = [j for j in range(k) if (j % last) not in skip]
         idx = free if len(free) <= cap else sorted({free[cyc(ex["picks"], j) % len(free)] for j in range(cap)})
         for a in idx:
             d = np.zeros(k)
@@ -775,11 +787,19 @@ def interior(p, lo=1e-3, hi=0.999):
     return min(hi, max(lo, p))
 
 
+def height_rows(t):
+    """node heights [..., 2n-1] -> list of rows (one per sample)"""
+    a = arr(t)
+    return a.reshape(-1, a.shape[-1]).tolist()
+
+
 def heights_events(dic, tree_id="tree"):
     def ev():
-        nh = arr(dic[tree_id].node_heights).reshape(-1).tolist()
-        n = (len(nh) + 1) // 2
-        return nh, [True] * n + [False] * (n - 1)
+        out = []
+        for nh in height_rows(dic[tree_id].node_heights):
+            n = (len(nh) + 1) // 2
+            out.append((nh, [True] * n + [False] * (n - 1)))
+        return out
     return ev
 
 
@@ -904,7 +924,7 @@ def body_like(c0):
     tags = like_tags(c)
     res = Res(nontrivial=False, key=None, tags=tags)
     infos = like_infos(c)
-    specs, _ = apply_plan(phylo.like_spec(c), infos, c["ex"])
+    specs, _ = apply_plan(batchify(phylo.like_spec(c), infos, c.get("batch"), c["ex"]["sep"]), infos, c["ex"])
     dic = build_all(specs)
     if c["model"]["name"] == "MG94":
         sm = dic["subst"]
@@ -916,6 +936,7 @@ def body_like(c0):
     events = None if c["tree"]["kind"].startswith("unrooted") else heights_events(dic)
     eng = Engine(res, dic, like, infos, c["ex"], events, tags)
     like_labels(eng, c)
+    batch_labels(eng, c, infos)
     eng.run(like_ident(c))
     if c.get("rescale") and not like.rescale:
         raise HarnessError("rescale flag was reset")
@@ -1115,17 +1136,19 @@ def coal_specs(c):
 def coal_events(dic, c):
     def ev():
         m = dic["coal"]
-        e = arr(m.tree_model.node_heights).reshape(-1).tolist()
-        n = (len(e) + 1) // 2
-        const = [True] * n + [False] * (n - 1)
-        if hasattr(m, "grid"):
-            gv = arr(m.grid.tensor).reshape(-1).tolist()
-            e += gv
-            const += [not c.get("grid_param")] * len(gv)
+        groups = []
+        for e in height_rows(m.tree_model.node_heights):
+            n = (len(e) + 1) // 2
+            const = [True] * n + [False] * (n - 1)
+            if hasattr(m, "grid"):
+                gv = arr(m.grid.tensor).reshape(-1).tolist()
+                e = e + gv
+                const += [not c.get("grid_param")] * len(gv)
+            groups.append((e, const))
         if hasattr(m, "growth"):
             # the growth rate must keep its sign (0 is a singular point of the formula) and, when small, its order of magnitude
-            return [(e, const), (arr(m.growth.tensor).reshape(-1).tolist() + [0.0], [False, True], 0.45)]
-        return e, const
+            groups += [([v, 0.0], [False, True], 0.45) for v in arr(m.growth.tensor).reshape(-1).tolist()]
+        return groups
     return ev
 
 
@@ -1140,9 +1163,10 @@ def body_coal(c0):
     tags = coal_tags(c)
     res = Res(nontrivial=False, tags=tags)
     specs, infos = coal_specs(c)
-    specs, _ = apply_plan(specs, infos, c["ex"])
+    specs, _ = apply_plan(batchify(specs, infos, c.get("batch"), c["ex"]["sep"]), infos, c["ex"])
     dic = build_all(specs)
     eng = Engine(res, dic, dic["coal"], infos, c["ex"], coal_events(dic, c), tags)
+    batch_labels(eng, c, infos)
     p = c["p"]
     eng.lab("model=" + p["model"] + ("[soft]" if c.get("temperature") and p["model"] == "skygrid" else ""))
     eng.lab("route=" + (c["route"] if c["route"] == "times" else "tree/" + c["kind"]))
@@ -1269,20 +1293,21 @@ def bdsk_specs(c):
 def bdsk_events(dic, target):
     def ev():
         m = dic[target]
-        nh = arr(m.tree_model.node_heights).reshape(-1)
-        e = nh.tolist()
-        n = (len(e) + 1) // 2
-        org = float(arr(m.origin.tensor).reshape(-1)[0])
-        if getattr(m, "origin_is_root_edge", False):
-            org += float(nh[-1])
-        e.append(org)
-        tm = getattr(m, "times", None)
-        if tm is not None:
-            tv = arr(tm.tensor).reshape(-1)
-            if m.relative_times:
-                tv = tv * org
-            e += (org - tv[1:]).tolist()
-        return e, [True] * n + [False] * (len(e) - n)
+        groups = []
+        for e in height_rows(m.tree_model.node_heights):
+            n = (len(e) + 1) // 2
+            org = float(arr(m.origin.tensor).reshape(-1)[0])
+            if getattr(m, "origin_is_root_edge", False):
+                org += float(e[-1])
+            e = e + [org]
+            tm = getattr(m, "times", None)
+            if tm is not None:
+                tv = arr(tm.tensor).reshape(-1)
+                if m.relative_times:
+                    tv = tv * org
+                e += (org - tv[1:]).tolist()
+            groups.append((e, [True] * n + [False] * (len(e) - n)))
+        return groups
     return ev
 
 
@@ -1300,9 +1325,10 @@ def body_bdsk(c0):
         tags["cls"] = "BirthDeathModel"
     res = Res(nontrivial=False, tags=tags)
     ex = c["ex"]
-    specs, _ = apply_plan(specs, infos, ex)
+    specs, _ = apply_plan(batchify(specs, infos, c.get("batch"), ex["sep"]), infos, ex)
     dic = build_all(specs)
     eng = Engine(res, dic, dic[target], infos, ex, bdsk_events(dic, target), tags)
+    batch_labels(eng, c, infos)
     m = len(c["R"])
     eng.lab("target=" + tags["cls"])
     eng.lab("m=%d" % m if m <= 3 else "m>3")
@@ -1428,11 +1454,12 @@ def body_gmrf(c):
         specs.append(spec)
     tags = {"cls": cls, "variant": variant, "tree": c["kind"] if "g" in c else "none"}
     res = Res(nontrivial=False, tags=tags)
-    specs, _ = apply_plan(specs, infos, ex)
+    specs, _ = apply_plan(batchify(specs, infos, c.get("batch"), ex["sep"]), infos, ex)
     dic = build_all(specs)
     if "g" in c and not np.all(arr(dic["tree"].branch_lengths()) > 0):
         raise HarnessError("generator produced an invalid time tree")
     eng = Engine(res, dic, dic["target"], infos, ex, heights_events(dic) if "g" in c else None, tags)
+    batch_labels(eng, c, infos)
     eng.lab("target=%s/%s" % (cls, variant))
     if "g" in c:
         eng.lab("tree=" + c["kind"])
@@ -1510,9 +1537,10 @@ def body_priors(c):
         specs.append(spec)
     tags = {"cls": cls, "tree": c.get("kind", "unrooted")}
     res = Res(nontrivial=False, tags=tags)
-    specs, _ = apply_plan(specs, infos, ex)
+    specs, _ = apply_plan(batchify(specs, infos, c.get("batch"), ex["sep"]), infos, ex)
     dic = build_all(specs)
     eng = Engine(res, dic, dic["target"], infos, ex, heights_events(dic) if events_needed else None, tags)
+    batch_labels(eng, c, infos)
     eng.lab("target=" + cls)
     eng.lab("tree=" + tags["tree"])
     eng.lab("order=" + ex["order"])
@@ -1676,9 +1704,10 @@ def body_dist(c):
         i["nt"] = False  # element-wise formulas and library calls: no indexed / masked / in-place operation on the way
     tags = {"cls": owner, "variant": variant}
     res = Res(nontrivial=False, tags=tags)
-    specs, _ = apply_plan([spec], infos, ex)
+    specs, _ = apply_plan(batchify([spec], infos, c.get("batch"), ex["sep"]), infos, ex)
     dic = build_all(specs)
     eng = Engine(res, dic, dic["target"], infos, ex, events, tags)
+    batch_labels(eng, c, infos)
     eng.lab("target=%s/%s" % (owner, variant))
     eng.lab("order=" + ex["order"])
     eng.run((owner, variant, rnd({a: b for a, b in c.items() if a not in ("ex", "torch_seed")}), ex["order"]))
@@ -1882,7 +1911,7 @@ def body_joint(c0):
             parts.append("prior.freqs")
     if w["tree_jacobian"] and c["tree"]["kind"] != "time":
         parts.append("tree")
-    specs, tps = apply_plan(specs, infos, ex)
+    specs, tps = apply_plan(batchify(specs, infos, c.get("batch"), ex["sep"]), infos, ex)
     if w["tp_jacobians"]:
         for i in infos:
             if i["layers"]:
@@ -1893,20 +1922,183 @@ def body_joint(c0):
         dic["like"].rescale = True
 
     def events():
-        e = arr(dic["tree"].node_heights).reshape(-1).tolist()
-        groups = [(e + (grid or []), [True] * n + [False] * (n - 1) + [True] * len(grid or []))]
+        groups = [(e + (grid or []), [True] * n + [False] * (n - 1) + [True] * len(grid or [])) for e in height_rows(dic["tree"].node_heights)]
         if model == "exponential":
             groups.append((arr(dic["coal"].growth.tensor).reshape(-1).tolist() + [0.0], [False, True], 0.45))
         return groups
 
     eng = Engine(res, dic, dic["joint"], infos, ex, events, tags)
     like_labels(eng, c)
+    batch_labels(eng, c, infos)
     eng.lab("coalescent=" + model)
     eng.lab("components=%d" % len(parts))
     for k, v in sorted(w.items()):
         if v:
             eng.lab("with_" + k)
     eng.run(("joint", like_ident(c), model, rnd(co), sorted(k for k, v in w.items() if v)))
+    return res
+
+
+# =========================================================================== mixed sample shapes
+TREE_OWNERS = ("TimeTreeModel", "ReparameterizedTimeTreeModel[ratio]", "ReparameterizedTimeTreeModel[shift]", "UnRootedTreeModel")
+GROUPS = ["tree", "demography", "subst", "site", "clock", "rates", "field", "precision", "x", "params"]
+
+
+def group_of(inf):
+    """the group of parameters an info belongs to (groups are given a sample dimension together), None = never batched"""
+    owner, role, dom = inf["owner"], inf["role"], inf["domain"]
+    if dom in ("simplex", "fixed", "sym") or inf.get("nowrap") and role in ("s", "rho"):
+        return None
+    if owner in TREE_OWNERS:
+        return "tree"
+    if role in ("theta", "growth"):
+        return "demography"
+    if owner in ("StrictClockModel", "SimpleClockModel"):
+        return "clock"
+    if owner in ("ConstantSiteModel", "InvariantSiteModel", "WeibullSiteModel"):
+        return "site"
+    if owner in SUBST_CLS.values():
+        return "subst"
+    if owner == "BDSKModel" and role in ("R", "delta", "s"):
+        return "rates"
+    if owner in ("GMRF", "GMRFGammaIntegrated") and role in ("field", "precision"):
+        return role
+    if owner == "CTMCScale":
+        return "x"
+    if owner.startswith("Distribution[") or owner in ("BayesianBridge", "ScaleMixtureNormal", "DeterministicNormal", "MultivariateNormal"):
+        return "x" if role == "x" else "params"
+    return None
+
+
+def batchify(specs, infos, plan, sep):
+    """give the chosen groups of parameters a sample dimension [S, k]: row 0 is the generated point, the other rows are jittered copies
+    (event-related parameters by less than sep/8 relative, so that the separation of event times holds in every row)"""
+    if not plan:
+        return specs
+    present = [g for g in GROUPS if any(group_of(i) == g for i in infos)]
+    if not present:
+        return specs
+    chosen = [g for k, g in enumerate(GROUPS) if g in present and (plan["mask"] >> k) & 1]
+    if not chosen:
+        chosen = [present[plan["mask"] % len(present)]]
+    S = plan["S"]
+    by_id = {i["id"]: i for i in infos}
+
+    def rows(inf, v):
+        dom = inf["domain"]
+        event = group_of(inf) == "tree" or inf["role"] in ("origin", "times", "grid")
+        out = [list(v)]
+        for r in range(1, S):
+            row = []
+            for j, x in enumerate(v):
+                u = cyc(plan["jit"], 3 * r + j)
+                if event:
+                    row.append(x * (1.0 + u * sep / 8.0))
+                elif dom == "pos":
+                    row.append(x * (1.0 + 0.3 * u))
+                elif dom == "unit":
+                    row.append(x + 0.3 * u * min(x, 1.0 - x))
+                else:
+                    row.append(x + 0.3 * u * max(abs(x), 1e-3) if inf["role"] == "growth" and abs(x) < 1e-3 else x + 0.3 * u)
+            out.append(row)
+        return out
+
+    def visit(x):
+        if isinstance(x, list):
+            return [visit(y) for y in x]
+        if not isinstance(x, dict):
+            return x
+        if x.get("type") == "Parameter" and x.get("id") in by_id and isinstance(x.get("tensor"), list) and "full" not in x:
+            inf = by_id[x["id"]]
+            if group_of(inf) in chosen and x["tensor"] and not isinstance(x["tensor"][0], list):
+                inf["last_dim"] = len(x["tensor"])
+                inf["batched"] = True
+                return dict(x, tensor=rows(inf, x["tensor"]))
+            return x
+        return {k: visit(v) for k, v in x.items()}
+
+    out = visit(specs)
+    plan["chosen"] = chosen
+    return out
+
+
+def batch_labels(eng, c, infos):
+    b = c.get("batch")
+    if not b:
+        return
+    groups = sorted({group_of(i) for i in infos if group_of(i)})
+    on = set(b.get("chosen", []))
+    eng.lab("S=%d" % b["S"])
+    eng.lab("batched=" + "+".join(g for g in groups if g in on) + "|unbatched=" + "+".join(g for g in groups if g not in on))
+    eng.tags["batched"] = sorted(on)
+
+
+@st.composite
+def mixed_cases(draw):
+    what = draw(st.sampled_from(["coal", "coal", "coal", "coal", "like", "like", "gmrf", "bdsk", "priors", "dist", "joint"]))
+    if what == "coal":
+        inner = draw(coal_cases())
+        inner["route"] = draw(st.sampled_from(["tree", "tree", "times"]))
+    elif what == "like":
+        inner = draw(like_cases(families=("nucleotide",)))
+    elif what == "gmrf":
+        inner = draw(gmrf_cases())
+    elif what == "bdsk":
+        inner = draw(bdsk_cases())
+    elif what == "dist":
+        inner = draw(dist_cases())
+    elif what == "joint":
+        inner = draw(joint_cases())
+    else:
+        inner = draw(prior_cases())
+    plan = draw(st.sampled_from(["fixed_tree", "tree_only", "random", "random"]))
+    mask = {"fixed_tree": 2 ** len(GROUPS) - 2, "tree_only": 1}.get(plan)
+    if mask is None:
+        mask = sum(int(draw(st.booleans())) << k for k in range(len(GROUPS)))
+    inner["batch"] = {"S": draw(st.sampled_from([1, 2, 2, 3])), "mask": mask, "jit": [draw(fl(-1.0, 1.0)) for _ in range(7)]}
+    return {"what": what, "case": inner}
+
+
+def mixed_enumerated(tier):
+    """every coalescent class on a real tree in each parameterisation, with (a) the population-size parameters carrying a sample dimension
+    and the tree fixed (one tree, S draws of the demography: the variational / point-estimate combination) and (b) the reverse"""
+    out = []
+    g = {"s": [0.0, 1.0, 0.5, 0.0, 2.0], "c": [1.7, 2.9, 4.2, 6.1]}
+    params = {"constant": {"theta": [3.0]}, "exponential": {"theta": [3.0], "growth": [0.21]}, "skyride": {"theta": [2.0, 5.0, 3.0, 1.5]},
+              "skygrid": {"theta": [2.0, 5.0, 3.0], "grid": [1.2, 3.3]}, "linear": {"theta": [2.0, 5.0, 3.0], "grid": [1.2, 3.3]}}
+    k = 0
+    for model, p in params.items():
+        for temp in ([None, 0.2] if model == "skygrid" else [None]):
+            for kind in TREE_KINDS:
+                for plan, mask in (("fixed_tree", 2 ** len(GROUPS) - 2), ("tree_only", 1)):
+                    k += 1
+                    c = {"g": g, "p": dict(p, model=model), "route": "tree", "perm_s": [0, 1, 2, 3, 4], "perm_c": [0, 1, 2, 3],
+                         "joins": [[0, 0], [1, 0], [0, 1], [0, 0]], "calendar": False, "batch": {"S": 1 + k % 3, "mask": mask, "jit": [0.3, -0.7, 0.5, 0.9, -0.2, 0.6, -0.4]},
+                         "kind": kind, "grid_param": False,
+                         "ex": {"order": ["ad_first", "fd_first"][k % 2], "sep": 0.01, "layers": [0, 1, 0, 2], "flip": [False, True], "aff": [[0.2, 1.3]],
+                                "picks": [k, 1 + k, 2, 3], "dir": [0.3, -0.7, 0.5, 0.9, -0.2, 0.6]}}
+                    if temp:
+                        c["temperature"] = temp
+                    out.append({"what": "coal", "case": c})
+    return out
+
+
+MIXED_BODIES = {"coal": lambda c: body_coal(c), "like": lambda c: body_like(c), "gmrf": lambda c: body_gmrf(c), "bdsk": lambda c: body_bdsk(c),
+                "priors": lambda c: body_priors(c), "dist": lambda c: body_dist(c), "joint": lambda c: body_joint(c)}
+
+
+def body_mixed(c):
+    """one group of parameters carries a sample dimension, another does not: the sum over the samples is differentiated with respect to the
+    unbatched parameters, and (the samples being evaluated independently) with respect to every sample's own slice of the batched ones.
+    A shape combination the library does not support may raise (C10's subject): counted, not a violation."""
+    from vt.runner import guarded, raises_kind
+
+    res, exc = guarded(MIXED_BODIES[c["what"]], c["case"])
+    if exc is not None:
+        return Res(nontrivial=False, labels=("unsupported_shape:" + c["what"], "raises:" + raises_kind(exc)[:90]), tags={"cls": c["what"]})
+    if isinstance(res.labels, dict):
+        res.labels = dict(res.labels)
+        res.labels["density=" + c["what"]] = 1
     return res
 
 
@@ -1948,6 +2140,7 @@ def subchecks(tier):
         Sub("distributions", body_dist, strategy=dist_cases, quick=160, thorough=5000, pretags=_pre(lambda c: c["what"])),
         Sub("jacobian", body_jacobian, strategy=jacobian_cases, quick=240, thorough=8000, pretags=_pre(lambda c: c["what"])),
         Sub("joint", body_joint, strategy=joint_cases, quick=150, thorough=5000, pretags=lambda c: dict(like_pretags(c), cls="JointDistributionModel")),
+        Sub("mixed_shapes", body_mixed, strategy=mixed_cases, enumerate=mixed_enumerated, quick=260, thorough=8000, pretags=lambda c: {"cls": c["what"]}, raising_is_failure=False),
         Sub("underflow_fallback", body_underflow, enumerate=underflow_cases, exhaustive=True, pretags=lambda c: dict(like_tags(c), fallback=True)),
         Sub("degenerate_start", body_degenerate, enumerate=degenerate_cases, exhaustive=True, pretags=degenerate_tags),
     ]
